@@ -1036,6 +1036,59 @@ func c09MaskFamily(t *rapid.T, ev *evProp) {
 					cnt++
 				}
 			}
+			// the accessors agree with the model: GetBit, the n-th enabled index and its inverse, the
+			// list of participants (in index order), the full key list, and the generic policies
+			var wantIdx []int
+			for k, v := range model[i] {
+				if v {
+					wantIdx = append(wantIdx, k)
+				}
+			}
+			acc := ""
+			pn := safely(func() {
+				parts := m.Participants()
+				if len(parts) != cnt {
+					acc = fmt.Sprintf("Participants() has %d keys", len(parts))
+				}
+				for j, k := range wantIdx {
+					if acc == "" && !parts[j].Equal(pubs[k]) {
+						acc = fmt.Sprintf("Participants()[%d] is not key %d", j, k)
+					}
+					if got := m.IndexOfNthEnabled(j); acc == "" && got != k {
+						acc = fmt.Sprintf("IndexOfNthEnabled(%d) = %d, want %d", j, got, k)
+					}
+					if got := m.NthEnabledAtIndex(k); acc == "" && got != j {
+						acc = fmt.Sprintf("NthEnabledAtIndex(%d) = %d, want %d", k, got, j)
+					}
+				}
+				if got := m.IndexOfNthEnabled(cnt); acc == "" && got != -1 {
+					acc = fmt.Sprintf("IndexOfNthEnabled(%d) = %d beyond the %d enabled bits", cnt, got, cnt)
+				}
+				for k, v := range model[i] {
+					if b, err := m.GetBit(k); acc == "" && (err != nil || b != v) {
+						acc = fmt.Sprintf("GetBit(%d) = %v, %v", k, b, err)
+					}
+					if got := m.NthEnabledAtIndex(k); acc == "" && !v && got != -1 {
+						acc = fmt.Sprintf("NthEnabledAtIndex(%d) = %d for a disabled bit", k, got)
+					}
+				}
+				if ps := m.Publics(); len(ps) != n || m.CountTotal() != n {
+					acc = fmt.Sprintf("Publics() has %d keys, CountTotal() = %d", len(ps), m.CountTotal())
+				} else {
+					ps[0] = nil // a copy: the caller may do what it likes with it
+				}
+				th := rapid.IntRange(0, n+1).Draw(t, "policyT")
+				if got := sign.NewThresholdPolicy(th).Check(m); acc == "" && got != (cnt >= th) {
+					acc = fmt.Sprintf("ThresholdPolicy(%d).Check = %v with %d enabled", th, got, cnt)
+				}
+				if got := (sign.CompletePolicy{}).Check(m); acc == "" && got != (cnt == n) {
+					acc = fmt.Sprintf("CompletePolicy.Check = %v with %d of %d enabled", got, cnt, n)
+				}
+			})
+			if pn != "" || acc != "" {
+				violationOrKnown(t, ev, key("mask-family"), "mask #%d (bits %v): %s %s\n%s", i, model[i], acc, pn, ctx())
+				return
+			}
 			if !bytes.Equal(m.Mask(), toBytes(model[i])) || m.CountEnabled() != cnt {
 				violationOrKnown(t, ev, key("mask-family"), "mask #%d reports bytes %x / %d enabled, the model says %x / %d\n%s", i, m.Mask(), m.CountEnabled(), toBytes(model[i]), cnt, ctx())
 				return
